@@ -503,18 +503,18 @@ def check_valid(c, prop, what=("listing", "data")):
         toks, mem, var, lab = denote(items, decls)
     except KeyError:
         return fails
-    if any(it[0] in ("b", "jal") and it[-1][0] == "label" and (it[-1][2] or 0) % 2 for it in items):
-        # label + odd offset denotes no encodable displacement: the assembler must reject it with the parity error
-        out = c.impl_out[0]
-        if not out.startswith("PE ParserOddImmediateException"):
-            fails.append(Failure("oracle", prop, f"label plus an odd offset was not rejected as an odd immediate: {out[:100]} -- text {c.meta['text']!r}", "asm:odd-label-offset-accepted"))
-        return fails
     out = c.impl_out[0]
     reserved = [it for it in items if it[0] == "label" and it[1] in ("nop", "ecall", "ebreak")]
     if reserved:
         toks_ok = out.startswith("ok ") and (out.partition(" | ")[0].split()[2].split(";") if out.partition(" | ")[0].split()[2] != "." else []) == toks
         if not toks_ok:
             fails.append(Failure("oracle", prop, f"a label named {reserved[0][1]!r} is not treated as a label: {out[:100]} -- text {c.meta['text']!r}", "asm:label-named-like-bare-instruction"))
+        return fails
+    if any(it[0] in ("b", "jal") and it[-1][0] == "label" and (it[-1][2] or 0) % 2 for it in items):
+        # label + odd offset denotes no encodable displacement: the assembler must reject it with the parity error
+        out = c.impl_out[0]
+        if not out.startswith("PE ParserOddImmediateException"):
+            fails.append(Failure("oracle", prop, f"label plus an odd offset was not rejected as an odd immediate: {out[:100]} -- text {c.meta['text']!r}", "asm:odd-label-offset-accepted"))
         return fails
     if not out.startswith("ok "):
         fails.append(Failure("oracle", prop, f"well-formed program rejected: {out[:120]} -- text {c.meta['text']!r}", "asm:valid-rejected:" + out.split()[1]))
